@@ -7,6 +7,7 @@
                   (also with elements that are themselves Array / List / Table objects: `Nest`)
     src/List.c    List_At, List_Get/Set/Mem/Rem/Push/Push_At/Pop/Pop_At/Resize/Concat/Assign
     src/Tuple.c   Tuple_Get/Set/Mem/Rem/Push/Push_At/Pop/Pop_At/Resize/Concat/Assign  (heap and stack tuples)
+    src/Cmp.c, src/Tuple.c, src/Array.c   sort = sort_by(self, lt): Tuple_Sort_By/_Part/_Partition, Array_Sort_By/_Part/_Partition
     src/Table.c   Table_Get/Set/Mem/Rem/Resize/Assign, Table_Ideal_Size             (contents + nslots)
     src/Tree.c    Tree_Get/Set/Mem/Rem/Resize/Assign
     src/String.c  String_Mem/Rem/Resize/Concat/Assign/Format_To                      (heap, stack and static strings)
@@ -612,6 +613,104 @@ def Tup.step (t : Tup) : Op → Tup × Res
   | .print _ (.lit _ :: _) _ => (t, .raised .ClassError)
   | .print _ _ _ => (t, .ub)
 
+/-! ### `sort` on Array and Tuple  (src/Cmp.c `sort` = `sort_by(self, lt)`; src/Tuple.c Tuple_Sort_By / _Part / _Partition,
+      src/Array.c Array_Sort_By / _Part / _Partition — the same quicksort, `Tuple_Swap` on pointers / `swap` on element bytes)
+
+  The comparison `lt(a, b) = cmp(a, b) < 0` is called while the partition loop has already exchanged elements: when it raises
+  (items of unlike types in a Tuple) the exception leaves with the exchanges done so far in place — finding KF-C12-sort-partial. -/
+
+/-- `strcmp(a, b) < 0` on the bytes (the strings of the histories are ASCII) -/
+def ltChars : List Char → List Char → Bool
+  | [], [] => false
+  | [], _ :: _ => true
+  | _ :: _, [] => false
+  | a :: as, b :: bs => if a.toNat < b.toNat then true else if a.toNat > b.toNat then false else ltChars as bs
+
+/-- the bytes `memcmp` sees of a `struct Plain { int64_t n; }` (little endian) -/
+def leBytes (n : Int) : List Nat :=
+  (List.range 8).map (fun k => ((BitVec.ofInt 64 n).toNat >>> (8 * k)) % 256)
+
+/-- `memcmp(a, b, 8) < 0` -/
+def ltBytes : List Nat → List Nat → Bool
+  | a :: as, b :: bs => if a < b then true else if a > b then false else ltBytes as bs
+  | _, _ => false
+
+/-- `lt(self, obj)` = `cmp(self, obj) < 0`: `Int_Cmp` (`c_int(obj)`), `String_Cmp` (`c_str(obj)`), the generic `memcmp` / TypeError
+    for a type without `Cmp`; `instance(NULL, Cmp)` raises ValueError.  Same validation as `eqv`. -/
+def ltv : Val → Val → R Bool
+  | .int a, .int b => .ok (decide (a < b))
+  | .int _, .null => .raised .ValueError
+  | .int _, _ => .raised .ClassError
+  | .str a, .str b => .ok (ltChars a b)
+  | .str _, .null => .raised .ValueError
+  | .str _, .nullstr => .ub
+  | .str _, _ => .raised .ClassError
+  | .plain a, .plain b => .ok (ltBytes (leBytes a) (leBytes b))
+  | .plain _, .null => .raised .ValueError
+  | .plain _, _ => .raised .TypeError
+  | .null, _ => .raised .ValueError
+  | .nullstr, _ => .ub
+
+/-- `Tuple_Swap(t, i, j)` / `swap(Array_Item(a, i), Array_Item(a, j))` (both positions exist whenever the sort calls it) -/
+def swapAt (xs : List Val) (i j : Nat) : List Val :=
+  match xs[i]?, xs[j]? with
+  | some a, some b => (xs.set i b).set j a
+  | _, _ => xs
+
+/-- the loop of `*_Sort_Partition`: `for (i = l; i < r; i++) { if (f(items[i], items[r])) { swap(i, s); s++; } }` —
+    a comparison that raises leaves with the exchanges of the earlier iterations done -/
+def partLoop (r : Nat) : Nat → Nat → Nat → List Val → List Val × R Nat
+  | 0, _, s, xs => (xs, .ok s)
+  | fuel + 1, i, s, xs =>
+    if i < r then
+      match ltv (xs.getD i .null) (xs.getD r .null) with
+      | .ok true => partLoop r fuel (i + 1) (s + 1) (swapAt xs i s)
+      | .ok false => partLoop r fuel (i + 1) s xs
+      | .raised e => (xs, .raised e)
+      | .ub => (xs, .ub)
+    else (xs, .ok s)
+
+/-- `*_Sort_Partition(t, l, r, f)`: the pivot `p = l + (r-l)/2` is exchanged with `r` **first**, then the loop, then `swap(s, r)` -/
+def sortPartition (xs : List Val) (l r : Nat) : List Val × R Nat :=
+  let xs1 := swapAt xs (l + (r - l) / 2) r
+  match partLoop r (r - l) l l xs1 with
+  | (xs2, .ok s) => (swapAt xs2 s r, .ok s)
+  | (xs2, .raised e) => (xs2, .raised e)
+  | (xs2, .ub) => (xs2, .ub)
+
+/-- `*_Sort_Part(t, l, r, f)` on `int64_t` bounds (`s-1` may be `-1`); fuel = recursion depth (never exhausted from `length + 1`) -/
+def sortPart : Nat → List Val → Int → Int → List Val × R Unit
+  | 0, xs, _, _ => (xs, .ub)
+  | fuel + 1, xs, l, r =>
+    if l < r then
+      match sortPartition xs l.toNat r.toNat with
+      | (xs1, .ok s) =>
+        (match sortPart fuel xs1 l ((s : Int) - 1) with
+         | (xs2, .ok _) => sortPart fuel xs2 ((s : Int) + 1) r
+         | (xs2, .raised e) => (xs2, .raised e)
+         | (xs2, .ub) => (xs2, .ub))
+      | (xs1, .raised e) => (xs1, .raised e)
+      | (xs1, .ub) => (xs1, .ub)
+    else (xs, .ok ())
+
+/-- `*_Sort_By(self, lt)`: `*_Sort_Part(self, 0, len - 1, lt)` -/
+def sortItems (xs : List Val) : List Val × R Unit :=
+  sortPart (xs.length + 1) xs 0 ((xs.length : Int) - 1)
+
+/-- `sort(tuple)`: no allocation check (nothing is reallocated: a stack Tuple is sorted in place) -/
+def Tup.sort (t : Tup) : Tup × Res :=
+  match sortItems t.items with
+  | (xs, .ok _) => ({ t with items := xs }, .ok .unit)
+  | (xs, .raised e) => ({ t with items := xs }, .raised e)
+  | (xs, .ub) => ({ t with items := xs }, .ub)
+
+/-- `sort(array)` -/
+def Arr.sort (a : Arr) : Arr × Res :=
+  match sortItems a.items with
+  | (xs, .ok _) => ({ a with items := xs }, .ok .unit)
+  | (xs, .raised e) => ({ a with items := xs }, .raised e)
+  | (xs, .ub) => ({ a with items := xs }, .ub)
+
 /-! ### Table  (src/Table.c) — contents as an association list, plus `nslots` -/
 
 def tablePrimes : List Nat :=
@@ -875,6 +974,27 @@ def Str.assign (s : Str) (v : Val) : Str × Res :=
   | .ok t => if s.alloc.nonHeap then (s, .raised .ValueError) else ({ s with s := t }, .ok .unit)
   | .raised e => (s, .raised e)
   | .ub => (s, .ub)
+
+/-- `assign(s, s)` — the operand is the target itself (also reached through `set(tree, k, v)` / `set(array, i, x)` with the
+    container's own String objects).  Since fix 744a45f: `char* val = c_str(obj); if (val is s->val) { return; }` — the guard sits
+    directly after `c_str` and **before** the allocation check: a no-op that cannot raise, on heap, stack and static Strings alike.
+    (The value operand of `Str.assign` is a different object: its characters live at another address and the guard is not taken.) -/
+def Str.assignSelf (s : Str) : Str × Res := (s, .ok .unit)
+
+/-- `String_Resize` when `realloc` may fail (CELLO_MEMORY_CHECK region; `checkFirst` = the NULL test sits directly after the
+    `realloc`, before the `memset` / terminator write — read from the source by translate/g_fail.py, fix 63509f2).  Allocation
+    failure is outside C12's statement (the old buffer is lost either way: `s->val = realloc(…)` has already overwritten the
+    pointer); what the order decides is whether the failure is *reported* or the NULL result is written through. -/
+inductive ResizeOom where
+  | done          -- realloc succeeded
+  | outOfMemory   -- `throw(OutOfMemoryError, …)`
+  | nullWrite     -- `memset(&s->val[m], …)` / `s->val[n] = '\0'` through the NULL pointer: undefined behaviour
+deriving DecidableEq, Repr, Inhabited
+
+def Str.resizeOom (checkFirst reallocFails : Bool) : ResizeOom :=
+  if !reallocFails then .done
+  else if checkFirst then .outOfMemory
+  else .nullWrite
 
 /-- `String_Format_To(self, pos, text)`: heap check, `realloc(pos + size + 1)`, `vsprintf(val + pos, …)` -/
 def Str.write (s : Str) (pos : Nat) (t : List Char) : Str × R Nat :=
@@ -1431,6 +1551,33 @@ def headerCall (o : Obj) (r : Res) : Res :=
   match headerExc o.self with
   | some e => .raised e
   | none => r
+
+/-- `sort(obj)` = `method(obj, Sort, sort_by, lt)`: the dispatcher first (`Type_Of`, then ClassError for a type that declares no
+    `Sort`), then `Tuple_Sort_By` / `Array_Sort_By`.  `none`: not modelled (an Array / List whose elements are containers). -/
+def Obj.sort (o : Obj) : Option (Obj × Res) :=
+  match o with
+  | .tup t => let (t', r) := t.sort; some (.tup t', r)
+  | .arr a => let (a', r) := a.sort; some (.arr a', r)
+  | .nest _ => none
+  | _ =>
+    match dispatchExc o.self o.typeName ("Sort", 0) with
+    | some e => some (o, .raised e)
+    | none => none
+
+/-- `assign(x, x)` — the target is its own operand.  String: `Str.assignSelf` (guard of fix 744a45f).  Array / List / Table / Tree:
+    `if (self is obj) { return; }` is the first statement of their `*_Assign` (pinned in the source profile).  Int: `Int_Assign`
+    stores `c_int(obj)`.  Tuple: no guard — `len` / `get` are implemented, so the heap check comes next (a stack Tuple raises ValueError
+    untouched), then `realloc` to the same size and every pointer is stored over itself.  `none`: not modelled. -/
+def Obj.assignSelf (o : Obj) : Option (Obj × Res) :=
+  match o with
+  | .str s => let (s', r) := s.assignSelf; some (.str s', r)
+  | .arr _ => some (o, .ok .unit)
+  | .lst _ => some (o, .ok .unit)
+  | .tab _ => some (o, .ok .unit)
+  | .tre _ => some (o, .ok .unit)
+  | .tup t => if t.alloc.nonHeap then some (o, .raised .ValueError) else some (o, .ok .unit)
+  | .scalar _ (.int _) => some (o, .ok .unit)
+  | _ => none
 
 /-! ### observable view (what `len`, `get` and iteration can see): capacities and scratch values erased -/
 
